@@ -30,6 +30,7 @@ DROPPED = ["visibility qualifiers (pub, pub(crate), pub(super))",
            "module-level `const` items of the source file that the extracted code refers to and the unit does not define are extracted with it",
            "where a unit says or_guard_rule: a match arm `A | B if g => { body }` is written as the two arms `A if g => { body }` and `B if g => { body }`",
            "where a unit says lit_rule: a string literal turned into a String (`\"X\".to_string()`, `String::from(\"X\")`, with colour calls in between) becomes `lit(<hash of X>)`; contracts name the label as @LIT(X)@",
+           "where a unit says loops: loop invariants are attached to the n-th loop header of the item (by position, the header text is the code's); anchor_re: the start of an item given as a regular expression",
            "where a unit says pub_fields: every field of an extracted struct is made `pub`",
            "where a unit says foreach_rule: a statement `<it>.for_each(|<pat>| { <body> });` is rewritten to `for <pat> in <it> { <body> }` (the definition of Iterator::for_each; Verus takes no closure capturing `&mut` state)",
            "where a unit says closure_contracts: the parameter list of a named closure is replaced by an annotated one (types, named result, requires/ensures) and its body, untouched, is wrapped in braces (Verus does not infer closure postconditions)",
@@ -244,6 +245,49 @@ def lit_rule(txt):
     # std's blanket `ToString::to_string` cannot be given a specification: the call is renamed to the stand-ins' `to_text`
     txt = txt.replace(".to_string()", ".to_text()")
     return txt
+
+
+def _loop_headers(item):
+    """[(start, brace_pos)] of `for` / `while` / `loop` headers in the item, in order of appearance (outside strings and comments)"""
+    out = []
+    for m in re.finditer(r"(?<![\w.])(for|while|loop)\b", item):
+        # skip keywords inside string literals (crude: an odd number of quotes before it on the line)
+        ls = item.rfind("\n", 0, m.start()) + 1
+        if item[ls:m.start()].count('"') % 2 == 1 or "//" in item[ls:m.start()]:
+            continue
+        depth = 0
+        i = m.end()
+        while i < len(item):
+            c = item[i]
+            if c in "([":
+                depth += 1
+            elif c in ")]":
+                depth -= 1
+            elif c == "{" and depth == 0:
+                out.append((m.start(), i))
+                break
+            elif c == ";" and depth == 0:
+                break
+            i += 1
+    return out
+
+
+def annotate_loops(item, specs, key):
+    """Loop annotations located by position, not by text: {"loop": n, "name": "it", "text": "<invariant ...>"} attaches the
+    text to the n-th loop header of the item (1-based, in order of appearance), optionally naming a `for` loop's iterator
+    (`for p in e` -> `for p in it: e`); the header itself - condition, iterated expression - is the code's."""
+    for sp in sorted(specs, key=lambda x: -x["loop"]):
+        hs = _loop_headers(item)
+        if sp["loop"] > len(hs):
+            raise ExtractError(f"lost anchor for annotation: loop #{sp['loop']} in {key} (the item has {len(hs)} loops)")
+        st, br = hs[sp["loop"] - 1]
+        header = item[st:br].rstrip()
+        if sp.get("name") and header.startswith("for"):
+            m = re.match(r"for\s+(.+?)\s+in\s+", header, re.S)
+            if m:
+                header = header[:m.end()] + sp["name"] + ": " + header[m.end():]
+        item = item[:st] + header + "\n" + sp["text"] + "\n" + item[br:]
+    return item
 
 
 def _match_paren(text, i):
@@ -497,10 +541,17 @@ def extract_item(e, vac=False):
         raise ExtractError(f"lost anchor: {e['file']} missing")
     t = open(p).read()
     anchor = e["anchor"]
-    n = t.count(anchor)
-    if n != 1:
-        raise ExtractError(f"lost anchor: `{anchor}` found {n} times in {e['file']}")
-    s = t.index(anchor)
+    if e.get("anchor_re"):
+        # the start of the item given as a regular expression (a loop header whose condition may change): must match once
+        ms = list(re.finditer(e["anchor_re"], t))
+        if len(ms) != 1:
+            raise ExtractError(f"lost anchor: /{e['anchor_re']}/ found {len(ms)} times in {e['file']}")
+        s = ms[0].start()
+    else:
+        n = t.count(anchor)
+        if n != 1:
+            raise ExtractError(f"lost anchor: `{anchor}` found {n} times in {e['file']}")
+        s = t.index(anchor)
     if e.get("kind") == "block":
         # a statement sequence (fragment of a larger body, e.g. inside a thread closure): from the anchor up to
         # and including the end anchor, both unique
@@ -519,6 +570,8 @@ def extract_item(e, vac=False):
             if item.count(a) != want:
                 raise ExtractError(f"lost anchor for substitution: `{a}` in {e['key']} (found {item.count(a)}, expected {want})")
             item = item.replace(a, b)
+        if e.get("loops"):
+            item = annotate_loops(item, e["loops"], e["key"])
         for ins in e.get("insert", []):
             k = "before" if "before" in ins else "after"
             if item.count(ins[k]) != 1:
@@ -563,6 +616,8 @@ def extract_item(e, vac=False):
     if e.get("generic_T"):
         # the enclosing impl's type parameter T is instantiated by an opaque stand-in type
         item = re.sub(r"\bT\b", e["generic_T"], item)
+    if e.get("loops"):
+        item = annotate_loops(item, e["loops"], e["key"])
     for ins in e.get("insert", []):
         # annotation insertion (loop invariants / decreases): `after` must occur exactly once in the item
         if "before" in ins:
